@@ -42,7 +42,7 @@ OInit == /\ cfg = Conf
          /\ ctr = [pub |-> 0, oid |-> 0]
          /\ conn = [k \in 1..Cardinality(CIDs) |->
                      LET c == CHOOSE d \in CIDs : Numbering[d] = k IN
-                     [cid |-> c, ver |-> VerOf(c), st |-> "up", clean |-> TRUE, recvmax |-> 0, expiry |-> 0]]
+                     [cid |-> c, ver |-> VerOf(c), st |-> "up", clean |-> TRUE, recvmax |-> 0, expiry |-> 0, sawfresh |-> FALSE]]
          /\ sess = [c \in CIDs |-> [online |-> Numbering[c], ver |-> VerOf(c)]]
          /\ q = [c \in CIDs |-> <<>>]
          /\ npid = [c \in CIDs |-> 1]
@@ -86,7 +86,7 @@ OpPublish(src, m) ==
 \* environment + broker steps.  Connections: client c uses connection number Num(c) once (no reconnects here).
 DoConnect(c, ver) ==
   /\ N(c) \notin DOMAIN conn
-  /\ LET cn == Put(conn, N(c), [cid |-> c, ver |-> ver, st |-> "up", clean |-> TRUE, recvmax |-> 0, expiry |-> 0]) IN conn' = cn
+  /\ LET cn == Put(conn, N(c), [cid |-> c, ver |-> ver, st |-> "up", clean |-> TRUE, recvmax |-> 0, expiry |-> 0, sawfresh |-> FALSE]) IN conn' = cn
   /\ sess' = Put(sess, c, [online |-> N(c), ver |-> ver])
   /\ UNCHANGED <<cfg, subs, owed, gowed, ctl, ret, unack, infl, last, ctr, q, npid>>
 
